@@ -3,7 +3,6 @@ package main
 import (
 	"fmt"
 	"go/types"
-	"strings"
 
 	"golang.org/x/tools/go/ssa"
 )
@@ -116,8 +115,13 @@ func heapSort(key string, ft types.Type) Sort {
 }
 
 func mangle(s string) string {
-	r := strings.NewReplacer(".", "_", "$", "_", "*", "p", "(", "_", ")", "_", "/", "_", " ", "_", "[", "_", "]", "_")
-	return r.Replace(s)
+	b := []byte(s)
+	for i, c := range b {
+		if !(c >= 'a' && c <= 'z' || c >= 'A' && c <= 'Z' || c >= '0' && c <= '9' || c == '_') {
+			b[i] = '_'
+		}
+	}
+	return string(b)
 }
 
 // heapGet returns the current term for a heap map, creating its initial symbol on first use.
